@@ -6,8 +6,7 @@ from . import core
 from .core import SC, SAbs, SBool, Poly, G, Inconclusive, sym
 
 
-class OutOfBound(BaseException):
-    """path left the stated bound (e.g. harmonic index above K); recorded, not a verdict"""
+OutOfBound = core.OutOfBound          # path left the stated bound (e.g. harmonic index above K); recorded, not a verdict
 
 
 def _is_sym(x):
@@ -344,8 +343,10 @@ class NPFacade:
         ab = abs(b) if _is_sym(b) else real_np.abs(b)
         if isinstance(ab, SAbs): ab = ab._real_abs()
         ad = abs(d) if isinstance(d, SC) else real_np.abs(d)
-        if isinstance(ad, SAbs): ad = ad._real_abs()
         bound = atol + ab * F(rtol)
+        if isinstance(ad, SAbs):
+            if isinstance(bound, (int, float, F)): return ad <= bound          # complex magnitudes: decided by component regions (core.SAbs._below)
+            ad = ad._real_abs()
         return SBool(lambda: bool(ad <= bound))
 
     def angle(s, z, deg=False):
